@@ -157,12 +157,19 @@ type DeduplicateParamsOptimizer struct {
 
 func deduplicateParams(list []*config_parser.Param) []*config_parser.Param {
 	res := make([]*config_parser.Param, 0, len(list))
-	m := make(map[string]struct{})
+	// The key is the (key, value) pair itself: the rendered form "key:value" is ambiguous
+	// ({"", "a:b"} and {"a", "b"} render identically) and would drop a distinct parameter.
+	type paramKey struct{ key, val string }
+	m := make(map[paramKey]struct{})
 	for _, v := range list {
-		if _, ok := m[v.String(true, false)]; ok {
+		if len(v.AndFunctions) != 0 {
+			res = append(res, v)
 			continue
 		}
-		m[v.String(true, false)] = struct{}{}
+		if _, ok := m[paramKey{v.Key, v.Val}]; ok {
+			continue
+		}
+		m[paramKey{v.Key, v.Val}] = struct{}{}
 		res = append(res, v)
 	}
 	return res
